@@ -161,6 +161,7 @@ package leanhelix
 //@   requires m.worker != nil && cap(m.worker.electionChannel) > 0
 //@   modifies ghost:nsent
 //@   ensures [at-most-one-send] nsent <= old(nsent) + 1
+//@   ensures [O19.the-trigger-is-handed-to-the-worker-unless-shutdown-was-observed] nsent == old(nsent) + 1 || done_observed(ctx)
 
 //@ func (*MainLoop).run
 //@   props C12 C14 C15 C16
@@ -174,4 +175,5 @@ package leanhelix
 //@   assert before call sendUpdateMessageNonBlocking [O12.a-nil-sync-is-never-forwarded-to-the-worker] $blockWithProof != nil
 //@   assert before call sendUpdateMessageNonBlocking [O14.1.only-newer-syncs-are-forwarded] maxBlockHeightBySync == nil || deref(maxBlockHeightBySync) < receivedBlockHeight
 //@   assert before call sendUpdateMessageNonBlocking [O14.1.older-contexts-cancelled-before-forwarding] m.state.Contexts.newestHvCanceledOlder != nil && !Older(m.state.Contexts.newestHvCanceledOlder.height, m.state.Contexts.newestHvCanceledOlder.view, (receivedBlockHeight + 1) % 2^64, 0)
+//@   assert before call CancelOlderThan#1 [O15.5.a-trigger-cancels-exactly-the-positions-older-than-its-own-next-view] $hv.height == trigger.Hv.height && $hv.view == (trigger.Hv.view + 1) % 2^64
 //@   assert before call sendElectionMessageNonBlocking [O15.5.view-context-cancelled-before-forwarding] m.state.Contexts.newestHvCanceledOlder != nil && !Older(m.state.Contexts.newestHvCanceledOlder.height, m.state.Contexts.newestHvCanceledOlder.view, trigger.Hv.height, (trigger.Hv.view + 1) % 2^64)
